@@ -173,7 +173,38 @@ pub fn syntax(rep: &mut Report, focus: &str, n: usize, seed: u64, thorough: bool
 
 /// One adversarially large pattern, compiled (and searched once) in THIS process: run as a
 /// child so that an abort (stack overflow) or a hang is an observation.
+/// Every nesting construct at depth n (around the optimizer's and the parser's depth limits) under every
+/// quantifier shape: acceptance must not depend on the optimizer, and nothing may panic.
+fn nestquant(n: usize) {
+    let nests: [(&str, &str, &str); 7] = [
+        ("(?=", "a", ")"), ("(?!", "a", ")"), ("(?<=", "a", ")"), ("(?:a|", "b", ")"), ("(?:", "a", ")"), ("(?i:", "a", ")"), ("(?:(?=", "a", "))"),
+    ];
+    let quants = ["+", "{2}", "{1,3}", "{5}", "{2,}?", "*", "{6}", "?", "{0,2}", "{3,}"];
+    let mut count = 0;
+    for (open, core, close) in nests {
+        for q in quants {
+            for wrap in [false, true] {
+                let inner = format!("{}{}{}", open.repeat(n), core, close.repeat(n));
+                let pat = if wrap { format!("(?:{}){}", inner, q) } else { format!("{}{}", inner, q) };
+                let a = regress::Regex::with_flags(&pat, "").is_ok();
+                let b = regress::Regex::with_flags(&pat, regress::Flags { no_opt: true, ..Default::default() }).is_ok();
+                if a != b {
+                    println!("mismatch optimized={} no_opt={} {}x{} {}", a, b, open, n, q);
+                    return;
+                }
+                if a {
+                    count += 1;
+                }
+            }
+        }
+    }
+    println!("ok {}", count);
+}
+
 pub fn big(kind: &str, n: usize) {
+    if kind == "nestquant" {
+        return nestquant(n);
+    }
     let pat: String = match kind {
         "alt" => vec!["a"; n].join("|"),
         "altgroups" => vec!["(a)"; n].join("|"),
